@@ -14,7 +14,7 @@ RULE = (
     "S'->S EOS grammar, sums to one on viable contexts, is all-zero on dead contexts; lm(x+EOS) is compared with "
     "weight(x)/Z; unnormalised next-token weights of Earley / IncrementalCKY on the prefix grammar are compared with the "
     "reference prefix weights. long workload: right/left-linear grammars of random automata, one sampled string of "
-    "100-300 tokens each, exact log-weights by a rational forward algorithm: rescaled Earley.logp, rescaled EarleyLM "
+    "150-400 tokens each, exact log-weights by a rational forward algorithm: rescaled Earley.logp, rescaled EarleyLM "
     "conditionals along the string, EarleyLM where the value is >= 1e-250. evaluations = decisions; non-trivial = grammar "
     "with nullable/unary-cyclic/recursive structure and both viable and dead contexts, or a long-context run."
 )
@@ -51,7 +51,7 @@ def gates(tier):
             "earley_rescaled.Earley.logp(x)": 20 * k, "Earley(prefix_grammar).next_token_weights": 400 * k,
             "IncrementalCKY(prefix_grammar).p_next": 400 * k},
         "shapes": {c: 3 * k for c in ["nullable_cycle", "unary_cycle", "recursive", "normalised", "unnormalised", "ctx:dead",
-                                      "ctx:viable", "long:run", "long:p<1e-100"]},
+                                      "ctx:viable", "long:run", "long:p<1e-100", "long:p<1e-600"]},
         "min_hashseeds": 2,
     }
 
@@ -84,7 +84,8 @@ def gen_long(rng, spec):
     if rng.random() < 0.5:
         final[rng.randrange(n)] = rng.randint(1, 4)
     # scale per state so that outgoing + final mass <= 1 (sub-stochastic; small probabilities per step)
-    scale = rng.choice([2, 4, 8, 16])
+    deep = rng.random() < 0.4  # deep underflow territory: far below 1e-600
+    scale = 32 if deep else rng.choice([4, 8, 16, 32])
     out = {}
     for i, a, j, w in arcs:
         out[i] = out.get(i, 0) + w
@@ -92,7 +93,7 @@ def gen_long(rng, spec):
         out[i] = out.get(i, 0) + w
     arcs = [[i, a, j, Fr(w, out[i] * scale)] for i, a, j, w in arcs]
     final = {i: Fr(w, out[i]) for i, w in final.items()}
-    length = rng.randint(100, 300)
+    length = rng.randint(320, 420) if deep else rng.randint(150, 400)
     # sample a path that can still reach a final state
     co = set(final)
     ch = True
@@ -196,6 +197,8 @@ def run_long(case, ctx):
     ctx.case(fp, True, ["long:run", "long:left" if case["left"] else "long:right"])
     if logw < math.log(1e-100):
         ctx.shape["long:p<1e-100"] += 1
+    if logw < -1400:
+        ctx.shape["long:p<1e-600"] += 1  # beyond the range a half-compensating rescaling could survive
     ctx.sample({"kind": "long", "len": len(x), "log_weight": logw, "left": case["left"], "states": n})
     g = linear_grammar(case)
     ok, cfg = ctx.call("earley_rescaled.Earley.logp(x)", case, lib.build_cfg, g, "Float")
